@@ -71,6 +71,10 @@ def build_matrix(pe, fam, shape, key, kind='obs', symmetric=False, base=None):
         M[0, m - 1] = float(vals[0, m - 1])
         if n > 1:
             M[n - 1, 0] = float(vals[n - 1, 0]) if not symmetric else M[0, m - 1]
+    if kind == 'mixedint' and n * m > 1:           # a Python int at [0, 0] (integer-typed numbers among the entries)
+        M[0, 0] = int(round(float(vals[0, 0]))) or 2
+        if n > 2 and m > 2:
+            M[1, 2] = M[2, 1] = 1
     if kind == 'mixed00' and n * m > 1:            # the plain number sits at [0, 0] (and, for n > 2, at [1, 2] / [2, 1])
         M[0, 0] = float(vals[0, 0])
         if n > 2 and m > 2:
@@ -177,7 +181,7 @@ def build(tier, seed):
     sizes = (1, 2, 3) if tier == 'quick' else (1, 2, 3, 4)
     for fam in FAMILIES:
         for n in sizes:
-            for kind in ('obs', 'cobs', 'mixed', 'mixed00'):
+            for kind in ('obs', 'cobs', 'mixed', 'mixed00', 'mixedint'):
                 cases.append({'kind': 'square', 'fam': fam, 'n': n, 'ekind': kind})
             if n > 1:
                 for kind in ('mixed', 'mixed00'):
@@ -475,6 +479,8 @@ def run_jack(pe, acc, case):
                     M[i, j] = o
             return M
         Nm = np.array([[1.0, 0.5], [-0.25, 2.0]])
+        Ni = np.array([[2, 3], [1, 5]])
+        Zm = np.array([[1 + 1j, 2], [0.5, 1j]])
         if kind == 'real-complex':
             A, B = mat('A', ekind='obs'), mat('B', ekind='cobs')
             progs = [('jack_matmul:real-complex', lambda: L.jack_matmul(A, B), lambda: L.matmul(A, B)),
@@ -491,6 +497,11 @@ def run_jack(pe, acc, case):
                      ('jack_matmul3', lambda: L.jack_matmul(A, B, A), lambda: L.matmul(A, B, A)),
                      ('jack_matmul:number', lambda: L.jack_matmul(A, Nm), lambda: L.matmul(A, Nm)),
                      ('jack_matmul:number-first', lambda: L.jack_matmul(Nm, A), lambda: L.matmul(Nm, A)),
+                     ('jack_matmul:integer-matrix', lambda: L.jack_matmul(A, Ni), lambda: A @ Ni),
+                     ('matmul:integer-matrix-first', lambda: L.matmul(Ni, A), lambda: Ni @ A),
+                     ('jack_matmul:complex-matrix', lambda: L.jack_matmul(A, Zm), lambda: A @ Zm),
+                     ('jack_matmul3:complex-matrix-first', lambda: L.jack_matmul(Zm, A, B), lambda: Zm @ (A @ B)),
+                     ('einsum:complex-matrix', lambda: L.einsum('ij,jk->ik', A, Zm), lambda: A @ Zm),
                      ('jack_matmul3:number-middle', lambda: L.jack_matmul(A, Nm, B), lambda: L.matmul(A, Nm, B)),
                      ('einsum:implicit', lambda: L.einsum('ij,jk', A, B), lambda: L.matmul(A, B)),
                      ('einsum:implicit-transposed', lambda: L.einsum('ba,ac', A, B), lambda: L.matmul(A, B)),
